@@ -336,7 +336,8 @@ def run(ctx):
                          "Coq PrimFloat = IEEE binary64 as in CPython/numpy",
                          "pulser-core 1.9.1 as installed (durations, HamiltonianData trajectories)"]
     ctx.assumptions += [
-        "theorems are in exact real arithmetic; binary64 breaks the separation of candidate points (finding F-08)",
+        "theorems are in exact real arithmetic; binary64 near-duplicates are merged by the adapter since 319efe0 "
+        "(F-08), the float behaviour of the merge is tied bit-exactly by the correspondence",
         "ints below 2^53 (i*dt uses float(i)); -0.0 is not generated (set semantics identifies it with 0.0)",
         "the noisy emu-mps solver inserts sub-steps at quantum jumps (C18); the step-loop model is the noiseless one",
         "sequences of 1 ns cannot be sampled by the adapter (PCHIP needs 2 points): backend runs use >= 16 ns"]
@@ -361,12 +362,14 @@ META = {
     "category": "proof",
     "technique": "Coq proof (R instance of a hand model of _get_target_times, the step loops and the reps loop) "
                  "+ bit-exact PrimFloat correspondence with the real adapter and both backends",
-    "text": ("Proved for all durations > 0, dt > 0 and observable sets: the grid is strictly increasing, starts at 0, "
-             "ends at the duration, and consists exactly of the multiples of dt up to the duration, the requested "
-             "times and the duration; dt > duration gives {0, T} plus requested times; a completed run takes exactly "
-             "the steps (t_k, t_k+1 - t_k); get_sequences repeats every trajectory reps times. Refuted at binary64: "
-             "near-duplicate points (F-08). Validated only: that the model equals the code (bit-exact comparison on "
-             "generated inputs), the duration under modulation, pulser's trajectory counts."),
+    "text": ("Proved for all durations > 0, dt > 0, merge tolerance in (0,1) and observable sets: the grid is "
+             "strictly increasing, starts at 0, ends at the duration, consecutive points are at least tol*duration "
+             "apart, every point is a multiple of dt, a requested time or the duration, and every such candidate "
+             "has a grid point closer than tol*duration; dt > duration gives {0, T} plus requested times; a "
+             "completed run takes exactly the steps (t_k, t_k+1 - t_k); get_sequences repeats every trajectory "
+             "reps times. The former F-08 witness is a float regression that now passes. Validated only: that "
+             "the model equals the code (bit-exact comparison on generated inputs), the duration under "
+             "modulation, pulser's trajectory counts."),
     "note": ("Trusted: Coq kernel+VM, stdlib real-number axioms, the hand model (tied by correspondence), "
              "PrimFloat==binary64, pulser-core 1.9.1. Theorems are in exact real arithmetic."),
 }
